@@ -98,6 +98,11 @@ def servedRespX (r : ReqX) (s : Served) (etag : Option Text) : Resp :=
 def etagPhaseX (r : ReqX) (status : Nat) (ok : Option Text → Resp) : Resp :=
   etagPhase r.base status ok
 
+/-- what the response becomes once the full script has run -/
+def outcome (r : ReqX) : HOut → Resp
+  | .raised v e => finish r.base (conditionalResp v e)
+  | .done st => finish r.base (plainRespX r r.base.baseStatus st.etagHdr)
+
 def respondX (r : ReqX) : Resp :=
   match r.base.kind with
   | .file =>
@@ -107,9 +112,7 @@ def respondX (r : ReqX) : Resp :=
     | .served s => etagPhaseX r (servedStatus s) (servedRespX r s)
     | .plain status => etagPhaseX r status (plainRespX r status)      -- not reached for `file`
   | .gen =>
-    match runScript r (fullScript r) (initState r) with
-    | .raised v e => finish r.base (conditionalResp v e)
-    | .done st => finish r.base (plainRespX r r.base.baseStatus st.etagHdr)
+    outcome r (runScript r (fullScript r) (initState r))
 
 /-- the script of the first model: `validate_since()` before the body exists, or nothing -/
 def legacyScript (r : Req) : List Step := if r.callSince then [.since] else []
